@@ -535,6 +535,14 @@ fn gen_conn(rng: &mut Rng) -> ConnScenario {
         if rng.chance(1, 2) {
             client.info_delay_ns = 0;
         }
+        // ... and a few hundred bytes of plugin messages with them (more read-ahead than one growth step of the read buffer)
+        if rng.chance(1, 2) {
+            for k in 0..rng.range(1, 3) {
+                let mut b = b"\x0fminecraft:brand".to_vec();
+                b.resize(rng.range(150, 600) as usize, 0x2e);
+                client.extras.push(crate::client::Extra { after_ack: true, at_ns: k, id: 0x02, body: crate::client::Body::Raw { bytes: b } });
+            }
+        }
     }
     let cfg = ConnCfg {
         secret: if rng.chance(1, 2) { Some(rng.bytes(8)) } else { None },
